@@ -116,6 +116,23 @@ def gen_setops(ops, with_trees=False):
         ntrees = 0
         if with_trees:
             leaves = exprs + [a for a, _ in rtexts[:200]]
+            # chains of adjacent / touching alternatives (one ends exactly where the next starts): what one operation
+            # hands to the next when results are composed
+            srt = sorted(univ, key=lambda v: (v[:3], 0 if v[3] else 1, [(0, i, '') if isinstance(i, int) else (1, 0, i) for i in v[3]]))
+            chains = []
+            for i in range(len(srt) - 2):
+                a, b, c = vtext(srt[i]), vtext(srt[i + 1]), vtext(srt[i + 2])
+                chains += ['>=%s <%s || >=%s' % (a, b, b), '>=%s <%s || >=%s <%s' % (a, b, b, c), '<%s || >=%s <=%s || >%s' % (a, a, b, b),
+                           '>%s <=%s || >%s' % (a, b, b), '<=%s || >%s <%s || >=%s' % (a, a, c, c), '>=%s || >=%s <%s' % (b, a, b)]
+            chain_leaves = [E_parse(t) for t in chains]
+            leaves = leaves + chain_leaves
+            for _ in range(300 if tier == 'quick' else 5000):
+                x = rng.choice(leaves); ch = rng.choice(chain_leaves)
+                t = rng.choice([['diff', x, ch], ['diff', ['diff', x, ch], rng.choice(leaves)], ['isect', x, ['diff', rng.choice(leaves), ch]],
+                                ['diff', x, ['diff', x, ['diff', x, ch]]], ['diff', x, ['isect', ch, rng.choice(leaves)]]])
+                ntrees += 1
+                cases += membership_cases([t], probes2)
+                cases.append(dump(['rprint', t]))
             for _ in range(1500 if tier == 'quick' else 30000):
                 t = random_tree(rng, leaves, rng.randint(2, 3 if tier == 'quick' else 4))
                 ntrees += 1
